@@ -62,9 +62,9 @@ CHECKS = {
              text="The guarantee is about all histories of a long-running daemon including restarts; the explorer enumerates every history that deviates from the all-success default in at most 2-3 places (quick/thorough), including every crash point and every failing call, on the real binaries, and checks the delivered-or-bounced ledger at every step and at the end.",
              note=DAEMON_NOTE),
  "C18": dict(engine="VK", category="exploration", design_ref="4/C18",
-             technique="bounded-exhaustive request enumeration against the real qmail-clean binary under the virtual kernel (one request per quiescent interval; oracle on the exact unlink() paths and reply bytes), with every unlink failing once",
+             technique="bounded-exhaustive request enumeration against the real qmail-clean binary under the virtual kernel (one request per quiescent interval; oracle on the exact unlink() paths and reply bytes), with every unlink failing once; bounded-exhaustive delivery-command streams (message-id catalogue x delivery numbers x address forms, every cut point, every sequence of <=3/4 commands) against the real qmail-lspawn/qmail-rspawn with recording stand-ins for the delivery programs (oracle on the spawner's open() paths, started children and their standard input, one report per command); deviation-bounded exploration of stray/mangled/oversized reports on the real qmail-send's report channels while deliveries are in flight, on a plain and an AddressSanitizer build",
              text="Validation bugs show only on malformed requests; every request of the bounded set is sent to the real helper and its system calls are compared with the documented behaviour, so within the bound acceptance and effect are decided for all requests.",
-             note=VK_NOTE + "; parts still to come in this check: spawner command streams, qmail-send report channels (see DESIGN.md)"),
+             note=VK_NOTE + "; " + DAEMON_NOTE),
  "C01": dict(engine="VK", category="fault_enumeration", design_ref="4/C01",
              technique="stateless exhaustive exploration of the real qmail-queue binary under a virtual kernel: every input of a boundary grid x every system-call index x {process kill, machine crash with every keep/lose pattern of unsynced data, every applicable errno, short write, short/interrupted read}; invariant evaluated after every call and on every post-crash image",
              text="The property quantifies over crash instants and single I/O failures; the explorer visits every one of them for every input of the grid (one deviation quick, all pairs thorough) on the real binary, so within those bounds the ordering 'fsync both, then one link' and the cleanup paths are decided exhaustively.",
@@ -74,9 +74,9 @@ CHECKS = {
              text="Rule precedence only shows where several rules match at once; the full subset product of a pool that contains every rule kind (user, domain, nested wildcards, catch-all, exceptions, locals, percent hack) makes every such overlap occur, and every address of the pool is routed under every configuration and compared with the model.",
              note=SEQ_NOTE + "; the order-preserving partition of recipients into local/remote files by todo_do is observed by the VK queue scenarios, not here"),
  "C09": dict(engine="SEQ", category="exploration", design_ref="4/C09",
-             technique="depth-first enumeration of the full tree of scripted SMTP server behaviours (reply classes/forms, garbage, disconnect, stall at every phase, 1-3 recipients, read-split/ahead-of-time/write-failure variants) through the real smtp()/smtpcode()/blast(), chained into the real qmail-rspawn report(); report() alone on every (status, output<=6/7 bytes)",
+             technique="depth-first enumeration of the full tree of scripted SMTP server behaviours (reply classes/forms, garbage, disconnect, stall at every phase, 1-3 recipients, read-split/ahead-of-time/write-failure variants) through the real smtp()/smtpcode()/blast(), chained into the real qmail-rspawn report(); report() alone on every (status, output<=6/7 bytes); preemption-bounded exhaustive interleaving of the real qmail-rspawn/qmail-lspawn with a scripted delivery program (9 fates: prints a report, closes its output, then exits 0/1/100/111 or is killed) under the virtual kernel",
              text="Every server script of the bounded tree is executed against the real client code and compared with a reference verdict function, so 'never K unless recipient and message were accepted' is decided for all scripts in the bound rather than for samples; the spawner's folding routine is covered over its whole small input space.",
-             note=SEQ_NOTE + "; the spawner process itself (pipe/SIGCHLD ordering in spawn.c) is outside this harness"),
+             note=SEQ_NOTE + "; " + VK_NOTE),
  "C15": dict(engine="SEQ", category="exploration", design_ref="4/C15",
              technique="exhaustive evaluation of the real squareroot() for all 2^32 ages, nextretry() on a dense grid, DFS over every insert/delmin sequence (depth<=8 quick, <=10 thorough) on the real prioq.c against a multiset reference; deviation-bounded exploration of daemon histories under a virtual clock (deferrals, ticks to each deadline, ALRM, TERM/restart, queue lifetime) with schedule monitors",
              text="The arithmetic facts are decided for the complete 32-bit domain; the heap is explored over all operation sequences up to the depth, which includes every heap shape of up to depth elements; the daemon-level schedule is explored on the real qmail-send under the virtual kernel and clock.",
